@@ -4,8 +4,8 @@ from common import *
 import decl, gen, pktcases, pktprops
 
 PID = 'C20'
-TARGETS = ['Properties/C20.vo', 'Bridge/EqBridge.vo', 'Bridge/PlumbingBridge.vo', 'Bridge/InitBridge.vo']
-KERNELS = ['G10_eq', 'G17_builder', 'G15_init', 'G15b_init_structural']
+TARGETS = ['Properties/C20.vo', 'Bridge/EqBridge.vo', 'Bridge/PlumbingBridge.vo', 'Bridge/InitBridge.vo', 'Bridge/RefBridge.vo']
+KERNELS = ['G10_eq', 'G17_builder', 'G15_init', 'G15b_init_structural', 'G16_ref']     # G16: what a parse stores for a referenced / selected packet
 PROP_FILE = 'Properties/C20.v'
 
 
@@ -87,6 +87,10 @@ def run(tier, seed, rng):
         vg = gen.ValGen(rng, table)
         cs = sorted(table)
         for c in cs:
+            vals = [v for v in (vg.try_value(c) for _ in range(5)) if v is not None]
+            if len(vals) >= 2:
+                # run-time selected packets alternate between parses: every packet kept alive must stay equal to a fresh parse of its bytes
+                G.add_extra(c, dict(op='eq_interleaved', values=[pktcases.jvalue(v) for v in vals + vals[:2]]))
             for _ in range(3):
                 v = vg.try_value(c)
                 if v is None:
@@ -108,6 +112,28 @@ def run(tier, seed, rng):
                     G.add_eq(c, v, ('pkt', other, {}))
                 G.add_eq(c, ('pkt', c, {}), ('pkt', c, {}))
         groups.append(G)
+    # ---- a reference whose selector hands out one shared packet instance per key, two packet options: parses in which the
+    # selected option alternates (A B A B ...), all packets kept alive
+    for variant, how in enumerate(('expr', 'lambda')):
+        opts = [('lit', ('pkt', 0, {})), ('lit', ('pkt', 1, {}))]
+        sel = ('choosed', ('field', 0), [1, 2], opts)
+        stable = {0: dict(end=None, align=None, sbl=None, gp=True, gu=True, vec=True, ann=True,
+                          fields=[{'move': None, 'body': ('elem', ('leaf', ('int', 1, False, None, 0)))}]),
+                  1: dict(end=None, align=None, sbl=None, gp=True, gu=True, vec=True, ann=True,
+                          fields=[{'move': None, 'body': ('elem', ('leaf', ('int', 2, False, None, 0)))}]),
+                  2: dict(end=None, align=None, sbl=None, gp=True, gu=(variant == 0), vec=True, ann=True,
+                          fields=[{'move': None, 'body': ('elem', ('leaf', ('int', 1, False, None, 0)))},
+                                  {'move': None, 'body': ('elem', ('refsel', sel, how, ('pkt', 0, {})))}]),
+                  3: dict(end=None, align=None, sbl=None, gp=True, gu=True, vec=True, ann=True,
+                          fields=[{'move': None, 'body': ('seq', ('refpkt', 2, {}), (('lit', 3), 'const'), None, None, None, None)}])}
+        G = pktcases.Group(stable, 60000 + variant)
+        mk = lambda t, x: ('pkt', 2, {0: t, 1: ('pkt', t - 1, {0: x})})
+        seqs = [[mk(1, 5), mk(2, 700), mk(1, 9), mk(2, 3), mk(1, 5)], [mk(2, 1), mk(1, 1), mk(2, 2), mk(1, 2)]]
+        for vs in seqs:
+            G.add_extra(2, dict(op='eq_interleaved', values=[pktcases.jvalue(v) for v in vs]))
+        G.add_extra(3, dict(op='eq_interleaved', values=[pktcases.jvalue(('pkt', 3, {0: [mk(1, 5), mk(2, 6), mk(1, 7)]})),
+                                                       pktcases.jvalue(('pkt', 3, {0: [mk(2, 8), mk(1, 9), mk(2, 8)]}))]))
+        groups.append(G)
     # the 'eq' operation needs bytes: take the encoding of the value (pack through the implementation first)
     for G in groups:
         for op in G.ops:
@@ -125,6 +151,14 @@ def run(tier, seed, rng):
             if o['changed'] and (o['eq'] or not o['ne'] or o['eq_rev']):
                 failures_early.append(dict(kind='oracle', sig='eq-default-pair', what=f"two default-constructed packets, one changed in place (lists grown, nested packets changed), still compare {o}",
                                            classes=pktprops.class_source(groups, r['group']), cls=decl.cname(r['c'])))
+    dist['interleaved'] = 0
+    for r in records:
+        if r['kind'] == 'extra:eq_interleaved' and isinstance(r['outcome'], dict) and 'ok' in r['outcome']:
+            o = r['outcome']['ok']
+            dist['interleaved'] += o['parsed']
+            for k, raw, what in o['bad']:
+                failures.append(dict(kind='oracle', sig='eq-interleaved', what=f"packets of one class parsed one after the other from {o['inputs']} and kept: packet {k} no longer equals a fresh parse of its own bytes {raw}: {what}",
+                                     classes=pktprops.class_source(groups, r['group']), cls=decl.cname(r['c']), raw=raw, inputs=o['inputs']))
     ex = [r for r in records if r['kind'] == 'extra:eq_from_value' or r['kind'] == 'extra:eq']
     for r, (gid, c, v, ch) in zip(ex, meta):
         o = r['outcome']
